@@ -452,7 +452,7 @@ impl Monitor for C12 {
          functions_call_tree[f]; every JSR in write_function(f) targets a member of the tree closed over inline callees; (b) reachability from main \
          and interrupt handlers computed on the AST = functions_actually_in_use; (c) every JSR executed on the emulator is an edge of the closed \
          tree and enters an in-use function; (d) the image with locals overlaid by call-tree level (replica of tests/build.rs) ends in the same state \
-         as the image with disjoint locals. non-trivial = accepted and compared"
+         as the image with disjoint locals. Recursive kind: recursion, mutual recursion, interrupt-only cycles, two interrupt handlers with callees of their own, prototype-only callees, callees in another bank, calls in for-update clauses. non-trivial = accepted and compared"
             .into()
     }
     fn assumptions(&self) -> Vec<String> {
